@@ -7,9 +7,18 @@ import (
 	"fmt"
 	"os"
 	"sort"
+	"time"
 
+	"verif/internal/eng"
 	"verif/internal/ev"
 )
+
+func clipMain(s string, n int) string {
+	if len(s) > n {
+		return s[:n] + "..."
+	}
+	return s
+}
 
 type checkFn func(c *ev.Ctx)
 
@@ -48,6 +57,17 @@ func main() {
 		os.Exit(2)
 	}
 	c := ev.New(id, tier, def.level)
+	// an Execute / Run that sits inside one instruction and dispatches nothing more can
+	// never be reached by a deadline and would leave the check without a verdict
+	eng.OnHang = func(script, api string, steps int64, stuck time.Duration) {
+		if steps < 0 {
+			c.Inconclusive(fmt.Sprintf("%s of %s has not returned for %v (no step hook on this evaluator: wall-clock watchdog only)", api, clipMain(script, 300), stuck.Round(time.Second)))
+		} else {
+			c.Violation("hang", "a call never returns: stuck inside one instruction", map[string]interface{}{
+				"summary": fmt.Sprintf("%s dispatched %d instruction(s) and then none for %v: the machine is stuck inside a single instruction, where no deadline or cancellation can reach it\n  script: %s", api, steps, stuck.Round(time.Second), clipMain(script, 600)), "script": script})
+		}
+		os.Exit(c.Finish())
+	}
 	def.fn(c)
 	os.Exit(c.Finish())
 }
